@@ -206,8 +206,16 @@ def sany(wd):
     os.makedirs(run, exist_ok=True)
     for f in glob.glob(os.path.join(SPEC, "*.tla")):
         shutil.copy(f, run)
+    # the proof modules EXTEND TLAPS, which lives in the proof system's library, not on SANY's class path
+    tlaps_lib = "/opt/veriftools/tlapm/lib/tlapm/stdlib/TLAPS.tla"
+    have_tlaps = os.path.exists(tlaps_lib)
+    mine = sorted(glob.glob(os.path.join(run, "*.tla")))
+    if have_tlaps:
+        shutil.copy(tlaps_lib, run)
     bad = []
-    for f in sorted(glob.glob(os.path.join(run, "*.tla"))):
+    for f in mine:
+        if f.endswith("Proof.tla") and not have_tlaps:
+            continue
         p = subprocess.run(["tla-sany", os.path.basename(f)], cwd=run, stdout=subprocess.PIPE, stderr=subprocess.STDOUT, text=True)
         if p.returncode != 0 or "Semantic errors" in p.stdout or "*** Errors" in p.stdout or "Fatal errors" in p.stdout or "Could not parse" in p.stdout:
             bad.append((os.path.basename(f), p.stdout[-1500:]))
@@ -312,24 +320,29 @@ class Check:
         return r
 
     def proof(self, module, note="", timeout=900):
-        """TLAPS: an unbounded inductive-invariant proof that complements the bounded TLC run (a bonus, never a verdict:
-        a proof that no longer goes through is a machinery error)."""
+        """TLAPS: an unbounded inductive-invariant proof that complements the bounded TLC run (a bonus, never a verdict;
+        its status is recorded in the evidence)."""
         wd = os.path.join(self.wd, "tlaps_" + module)
         os.makedirs(wd, exist_ok=True)
         for f in os.listdir(SPEC):
             if f.endswith(".tla"):
                 shutil.copy(os.path.join(SPEC, f), wd)
         t = time.time()
+        rec = {"module": module, "note": note}
         try:
             r = subprocess.run(["tlapm", "--threads", "8", module + ".tla"], cwd=wd, capture_output=True, text=True, timeout=timeout)
-        except FileNotFoundError:
-            raise Machinery("tlapm not installed")
-        out = r.stdout + r.stderr
-        m = re.search(r"All (\d+) obligations? proved", out)
-        if r.returncode != 0 or not m:
-            raise Machinery("TLAPS proof %s did not go through:\n%s" % (module, out[-2000:]))
-        self.cov.setdefault("proofs", []).append({"module": module, "obligations_proved": int(m.group(1)), "wall_s": round(time.time() - t, 1), "note": note})
-        log("[%s] TLAPS %s: %s obligations proved %.1fs" % (self.prop, module, m.group(1), time.time() - t))
+            out = r.stdout + r.stderr
+            m = re.search(r"All (\d+) obligations? proved", out)
+            if r.returncode == 0 and m:
+                rec.update(status="proved", obligations_proved=int(m.group(1)))
+            else:
+                rec.update(status="not proved", output=out[-1500:])
+        except (FileNotFoundError, subprocess.TimeoutExpired) as ex:
+            rec.update(status="not run", output=str(ex)[:300])
+        rec["wall_s"] = round(time.time() - t, 1)
+        # the proof is a bonus on top of the bounded TLC run of the same invariant: it never decides the check
+        self.cov.setdefault("proofs", []).append(rec)
+        log("[%s] TLAPS %s: %s %s %.1fs" % (self.prop, module, rec["status"], rec.get("obligations_proved", ""), rec["wall_s"]))
 
     # ---- harness
     def harness(self):
